@@ -30,3 +30,91 @@ SPECS = [
         props=["C01", "C02", "C06", "C09", "C10", "C14"],
     ),
 ]
+
+ST, SK, SD_ = "f'{N}.stoch'", "f'{N}.k'", "f'{N}.d'"
+DST, DK = "f'{N}_data.stoch'", "f'{N}_data.k'"
+LLS = "MinOf(j - period + 1, j + 1, lambda t: num(Rd(c, t, 'low')))"
+HHS = "MaxOf(j - period + 1, j + 1, lambda t: num(Rd(c, t, 'high')))"
+SPECS += [
+    IndSpec(
+        "hexital.indicators.stoch.STOCH",
+        params=dict(RV, period=("int", None), slow_period=("int", None), smoothing_k=("int", None),
+                    input_value=("lit:close", None)),
+        lets=dict(LETS, X="input_value", w="period - 1", wk="period - 1 + smoothing_k - 1",
+                  wd="period - 1 + smoothing_k - 1 + slow_period - 1", KN="f'{N}_k'", DN="f'{N}_d'"),
+        extra_pre=dict(PRE_RV, **{"periods": "period >= 2 and slow_period >= 2 and smoothing_k >= 2"}),
+        helpers=["f'{N}_data'"],
+        subs={"self.managed_indicators['STOCH_data'].sub_indicators[f'{N}_k']": {"role": "helper", "ghost": {"s": "w"}},
+              "self.managed_indicators['STOCH_d']": {"role": "helper", "ghost": {"s": "wk"}}},
+        inv={
+            "dict": (f"isdict({R('N')})", ["C06", "C09"]),
+            "data-stoch": (f"iff({R(DST)} is not None, j >= w) and implies(j >= w, isnum({R(DST)}))", ["C06", "C09"]),
+            "data-k": (f"iff({R(DK)} is not None, j >= wk) and implies(j >= wk, isnum({R(DK)}))", ["C06", "C09"]),
+            "presence": (f"iff({R(ST)} is not None, j >= w) and iff({R(SK)} is not None, j >= wk) and iff({R(SD_)} is not None, j >= wd)", ["C06", "C09"]),
+            "stoch-formula": (f"implies(j >= w and {HHS} > {LLS}, Abs({NUM(ST)} - 100 * ({NUM('X')} - {LLS}) / ({HHS} - {LLS})) <= eps)", ["C06"], {"assume": False, "defer": True}),
+            "stoch-flat-window": (f"implies(j >= w and {HHS} == {LLS}, {NUM(ST)} == 0)", ["C06"], {"assume": False}),
+            "0<=stoch<=100": (f"implies(j >= w, 0 <= {NUM(ST)} and {NUM(ST)} <= 100 and 0 <= {NUM(DST)} and {NUM(DST)} <= 100)", ["C10"], {"defer": True}),
+            "k-is-stored-k": (f"implies(j >= wk, Abs({NUM(SK)} - {NUM(DK)}) <= eps)", ["C06"]),
+            "d-is-sma-of-k": (f"implies(j >= wd, Abs({NUM(SD_)} - {NUM('DN')}) <= eps)", ["C06"]),
+        },
+        window="period",
+        props=["C01", "C02", "C06", "C09", "C10", "C14"],
+    ),
+]
+
+TD = "self.managed_indicators['TSI_data']"
+SPECS += [
+    IndSpec(
+        "hexital.indicators.tsi.TSI",
+        params=dict(RV, period=("int", None), smooth_period=("int", None), input_value=("name", None), s=("int", None)),
+        ctor={"skip": ("s",)},
+        lets=dict(LETS, X="input_value", w1="s + 1", w2="s + period", w="s + period + smooth_period - 1",
+                  P="f'{N}_data.price'", AP="f'{N}_data.abs_price'", S2="f'{N}_second'", A2="f'{N}_abs_second'"),
+        extra_pre=dict(PRE_RV, **{"periods": "period >= 2 and smooth_period >= 2"}),
+        inputs={"X": ("s", "num")},
+        helpers=["f'{N}_data'"],
+        subs={
+            TD + ".sub_indicators[f'{N}_first']": {"role": "helper", "ghost": {"s": "w1"}},
+            TD + ".sub_indicators[f'{N}_first'].sub_indicators[f'{N}_second']": {"role": "helper", "ghost": {"s": "w2"}, "parent": TD + ".sub_indicators[f'{N}_first']"},
+            TD + ".sub_indicators[f'{N}_abs_first']": {"role": "helper", "ghost": {"s": "w1"}},
+            TD + ".sub_indicators[f'{N}_abs_first'].sub_indicators[f'{N}_abs_second']": {"role": "helper", "ghost": {"s": "w2"}, "parent": TD + ".sub_indicators[f'{N}_abs_first']"},
+        },
+        inv={
+            "data-momentum": (f"iff({R('P')} is not None, j >= w1) and iff({R('AP')} is not None, j >= w1)"
+                              f" and implies(j >= w1, isnum({R('P')}) and isnum({R('AP')}) and {NUM('P')} == {NUM('X')} - {NUM('X', 'j - 1')}"
+                              f" and {NUM('AP')} == Abs({NUM('X')} - {NUM('X', 'j - 1')}))", ["C06", "C09"]),
+            "presence": (f"iff({R('N')} is not None, j >= w)", ["C06", "C09"]),
+            "type": (f"implies(j >= w, isfloat({R('N')}))", ["C06", "C09"]),
+            "rounded": ROUNDED,
+            "tsi": (f"implies(j >= w and {NUM('A2')} != 0, Abs({NUM('N')} - 100 * {NUM('S2')} / {NUM('A2')}) <= eps)", ["C06"]),
+            "tsi-no-movement": (f"implies(j >= w and {NUM('A2')} == 0, {NUM('N')} == 0)", ["C06"]),
+        },
+        variants=[{}, {"input_value": "dotted"}],
+        window="1",
+        props=["C01", "C02", "C06", "C09", "C10", "C14"],
+    ),
+    IndSpec(
+        "hexital.indicators.hma.HMA",
+        params=dict(RV, period=("int", None), input_value=("name", None), s=("int", None)),
+        ctor={"skip": ("s",)},
+        lets=dict(LETS, X="input_value", w1="s + period - 1", HS="f'{N}_HMAs'", HR="f'{N}_HMAr'", W1="f'{N}_WMA'", W2="f'{N}_WMAh'"),
+        # periods 2 and 3 give helper WMAs of period 1 (int(p / 2), int(sqrt(p))), outside the WMA contract
+        # (period >= 2): those two periods are decided by the bounded stand-in only
+        extra_pre=dict(PRE_RV, **{"period>=4": "period >= 4"}),
+        inputs={"X": ("s", "num")},
+        helpers=["f'{N}_HMAr'"],
+        subs={
+            "self.sub_indicators[f'{N}_WMA']": {"role": "prior", "ghost": {"s": "s"}},
+            "self.sub_indicators[f'{N}_WMAh']": {"role": "prior", "ghost": {"s": "s"}},
+            "self.managed_indicators['raw_HMA'].sub_indicators[f'{N}_HMAs']": {"role": "helper", "ghost": {"s": "w1"}},
+        },
+        inv={
+            "raw-series": (f"iff({R('HR')} is not None, j >= w1) and implies(j >= w1, isnum({R('HR')}) and {NUM('HR')} == 2 * {NUM('W2')} - {NUM('W1')})", ["C04", "C09"]),
+            "presence": (f"iff({R('N')} is not None, {R('HS')} is not None) and implies(j < w1, {R('N')} is None)", ["C04", "C09"]),
+            "hma-is-wma-of-raw": (f"implies({R('N')} is not None, isfloat({R('N')}) and Abs({NUM('N')} - {NUM('HS')}) <= eps)", ["C04"]),
+        },
+        variants=[{}, {"input_value": "dotted"}],
+        window="0",
+        props=["C01", "C02", "C04", "C09", "C10", "C14"],
+    ),
+]
